@@ -24,6 +24,10 @@ CLAIMS = {
   text="Coq refinement (Props/C11.v), unbounded in the length of the history: the state-machine model of add_named_file/_copy_in/_fingerprint/register_complete/registered_file/remove_named_file over an abstract file system refines the specification 'name -> list of (source file name, content) versions' (C11_refines, by a simulation relation preserved by every operation); corollaries: get_named_file names a file whose bytes are the latest registered content and whose name is their digest (C11_current), stored versions never change until their name is removed (C11_immutable), source edits and new instances do not affect the store, one manifest entry per version-changing registration (C11_manifest_spec). SHA-256 is a hypothesis (injective). Tie: every operation sequence up to length 3 (quick) / 4 (thorough) over the property's 13-letter alphabet plus random longer ones is executed on a real FileManager in a scratch tree; after every operation the whole store (tree, bytes, manifests, get_named_file, fingerprints) is abstracted and compared with model and specification by the Coq kernel.",
   note="Trusted: Coq kernel; sha injective (Section hypothesis, named in Print Assumptions as an ordinary premise); Mgr/FileStore.v as far as the exhaustive short-history correspondence shows it equal to the code; the real file system, shutil, json are used as they are; harness abstraction function. No axioms.",
   technique="Coq refinement proof (state machine -> abstract version map, induction over operation histories) + exhaustive short-history correspondence evaluated by the Coq kernel"),
+ "C12": dict(
+  text="Coq theorems (Props/C12.v), unbounded in the number and size of the csvpaths: Python's str.split on the marker is modelled as a scanner; for any list of non-blank csvpaths that do not contain the marker text (newlines, comments, anything else allowed) the scan of the stored group file finds exactly the wrapped members — no occurrence inside or across members (C12_split, using that the marker has no newline) — and get_named_paths returns them in order, equal up to surrounding whitespace (C12_roundtrip); selection by identity returns the first member with that identity, ':to' the prefix ending at it, ':from' the suffix starting at it (C12_select); the manifest gains one entry per change of the group file's fingerprint and none for an identical re-add (C12_manifest). Tie: generated groups (id/Id/ID/name/Name/NAME comments, inner comments, newlines, whitespace) are stored and read back by the real PathsManager: group file text, get_named_paths, identities (through the C15 metadata model), '#id', '$g.csvpaths.id', ':to', ':from' vs model and vs the property (identities as written by the generator) in Coq; exhaustive short + random histories of add/re-add/replace/remove/new instance on two names vs the manifest model.",
+  note="Trusted: Coq kernel; Mgr/PathsStore.v (str.split, strip on Unicode whitespace) and Meta/MetaModel.v as far as correspondence shows; SHA-256 of the group file abstracted to an injective id in the history comparison; harness. No axioms.",
+  technique="Coq proof (string-scanner round trip, list lemmas) + kernel-evaluated correspondence on real PathsManager groups and histories"),
  "C13": dict(
   text="Coq theorems (Props/C13.v). Adjudication loop of Matcher.matches modelled parametrically in the component evaluator (Match/Adjudicate.v): for EVERY set of functions, a stop() firing in component i leaves exactly components 1..i evaluated and the line returnable only if i is last (C13_stop_line); skip() makes the line not match, evaluates nothing after it and the flag is down when the line ends, also as last component (C13_skip_line); without stop/skip all components run left to right and the answer is the AND/OR of votes (C13_calm_line). Run loop, for EVERY matcher: a stopped step halts the fold (C13_stop_run), an advancing line is counted but not evaluated/returned/matched (C13_advance), last() is true on at most one evaluated line (C13_last_once), the blank final record triggers one frozen evaluation that returns nothing and runs only 'last() ->' components (C13_blank_last, C13_blank_last_only_lasts). Tie: Match/Ctl.v instantiates both models with stop/skip/advance/last/push; the property's finite space (control form x position x firing line x scan window x blank pattern) is enumerated on the real CsvPath and returned lines, every stack, counters and the stop flag are compared with the executable model by the Coq kernel. C13_skip_last_leaks_refuted is the witness of the repaired defect D8.",
   note="Trusted: Coq kernel; Match/Ctl.v as a transcription of Stopper/Skipper/Advance/Last/Push/_do_when/Function.matches(frozen) for the AND-mode fragment without onmatch (programs with onmatch look-ahead are outside the theorems: partial); harness. No axioms.",
